@@ -7,6 +7,8 @@ A = "Engine A (sched): stateless DFS over gate-release / clock schedules of the 
 B = "Engine B (hist): bounded-exhaustive enumeration of histories / inputs through the real component against a reference model"
 
 CHECKS = {
+ "C01": ("model_checking", "sched", "exhaustive schedule exploration of the real Cucumber::run()/run_and_exit() pipeline under the harness executor, verdict vs reference",
+         "Real Cucumber::custom(parser, runner::Basic, writer).with_cli(..).run()/run_and_exit() driven by the gate executor: outcome chains over retry budget 0-2 (failure at before hook / step / after hook, then pass/fail), second step matched/no-match/ambiguous, @allow.skipped on scenario/rule/feature, bystander passing/skipped, parser error none/last(/first), fail-fast (thorough), all completion orders, through 50 writer stacks: {Summarize<Normalize<Basic>>, Normalize<Libtest>, Or(left/right), Tee} x {plain, FailOnSkipped, Repeat failed/skipped, FailOnSkipped<Repeat>} x {run, run_and_exit}. Oracle (iff): reported failed == parser error or final failure or non-allowed skip under fail_on_skipped, computed from the items crossing the runner->writer boundary; also the libtest suite line.", "§6 C01"),
  "C02": ("model_checking", "sched", "exhaustive schedule exploration (stateless DFS, re-execution) of the real runner + per-attempt reference model",
          "Every completion order (L0 full DFS) of gated steps of a scenario under test next to a gated bystander, for every small shape (0-1 feature bg, rule, 0-1 rule bg, 0-2 steps, one odd step kind) x hooks x retry budget 0-2 x per-attempt fault chain; poll-granular (L1) deviation-bounded exploration of tiny configs. The projection of the real event stream on every attempt must equal the sequence predicted by RefScenario (DESIGN App. A).", "§6 C02"),
  "C03": ("model_checking", "sched", "exhaustive schedule exploration of the real runner over all parser item sequences <= bound",
